@@ -8,3 +8,4 @@ import CtyModel.Props.C18
 import CtyModel.Props.C05
 import CtyModel.Props.C04
 import CtyModel.Props.C16
+import CtyModel.Props.C15
